@@ -27,7 +27,13 @@ Decided:
          parameter; a default expression is not a call evaluated once at definition.  The same kinds are shared in the
          core's classification (R12.a): a parameter's default object whatever the parameter is called, ``cls`` and
          ``__class__`` whatever the class, a local that only names a module-level object, a field of a per-request class
-         that is initialised in the class body only.
+         that is initialised in the class body only, and an object taken out of the caller's ``*args`` / ``**kwargs``
+         (``kw.get(k)`` / ``kw.pop(k)`` / ``kw[k]`` / ``args[i]``, directly or through a local a definition of which reaching
+         the update is such an expression): the mapping / tuple is built per call, what the caller put into it is not.
+  R12.f  what a request is handed is its own: no function that runs while a request is served returns / yields one long-lived
+         mutable object -- a container the enclosing construction-time function built once and a closure hands to every
+         caller (the converters of a route), a module-level container, the default object of a parameter, a class-level
+         container no instance re-binds (c12_ring.check_handed_out).
 Declined: interleavings inside werkzeug / user code; anything below the Python level.
 """
 import ast
@@ -67,7 +73,8 @@ def run(rep):
     app, route = repo.mod(APP), repo.mod(ROUTE)
     rep.decide('R12.a no shared write on the request path (incl. generated code); R12.b BoundRoute immutable after '
                'construction; R12.c request-id source; R12.d middleware self-write inventory; R12.e no long-lived receiver '
-               'is updated by the middlewares / renderers / shipped applications')
+               'is updated by the middlewares / renderers / shipped applications; R12.f no long-lived mutable object is handed '
+               'out as a per-request value')
     rep.decline('interleavings inside werkzeug / user code; memory-model questions below the Python level')
     rep.assume('itertools.count.__next__ is a single C call under the GIL')
     rep.assume('user-supplied endpoints / middlewares / renderers and werkzeug do not share state between requests')
@@ -88,8 +95,11 @@ def run(rep):
     rep.rule('R12.e', 'outside the core (built-in middlewares, renderers, shipped applications): no update of a positively long-lived receiver '
                       '(long-lived instance, class object, class-level attribute, module-level object, default object); defaults are not '
                       'evaluated-once calls')
-    from .c12_ring import check_ring
+    from .c12_ring import check_ring, check_handed_out
     _group(rep, check_ring, rep, 'R12.e', rp)
+    rep.rule('R12.f', 'no function that runs while a request is served hands out (returns / yields) one long-lived mutable object: a container '
+                      'captured from a construction-time scope, a module-level container, a default object, a class-level container')
+    _group(rep, check_handed_out, rep, 'R12.f', rp)
 
 
 # ---- R12.c: request ids ---------------------------------------------------------------------------------------------
@@ -411,12 +421,13 @@ def check_route_immutable(rep, route):
         effs = [e for e in effects.effects_in(m.node) if e.root == 'self']
         if effs and name in ctor_only:
             rep.ok('R12.b', fkey(m), 'writes self, but is a private part of the constructor: every mention of %s in the analysed tree is a '
-                                     'self.%s(...) call from __init__ (or from another such part)' % (name, name), route, m.node)
+                                     'self.%s(...) call from __init__ (or from another such part)' % (name, name), m.mod, m.node)
             continue
         rep.check('R12.b', fkey(m), not effs, 'does not write self' if not effs else
                   'BoundRoute.%s writes the shared route object after construction: %s' % (name, [short(e.node) for e in effs]),
-                  route, effs[0].node if effs else m.node)
-    route_roles = set(k for k, v in ROLE_TABLE.items() if ('clastic.route', 'BoundRoute') in v)
+                  m.mod, effs[0].node if effs else m.node)
+    from .noninterf import role_classes
+    route_roles = set(k for k in ROLE_TABLE if br in role_classes(repo, k))       # (the class by definition, wherever it lives)
     n = 0
     for m in repo.all_internal_modules():
         for fi2 in m.functions.values():
@@ -430,13 +441,30 @@ def check_route_immutable(rep, route):
 
 
 
+def _self_writes_table(repo):
+    """{FuncInfo: reason} -- the table names a function as ``module::qualname``; it denotes the definition that name
+    resolves to in that module (a class that moved to another module of the package and is imported back is followed)."""
+    out = {}
+    for key, why in SELF_WRITES_TABLE.items():
+        mn, _, qn = key.partition('::')
+        m = repo.try_mod(mn)
+        if m is None or m.external:
+            continue
+        try:
+            out[m.func(qn)] = why
+        except AnalysisError:
+            continue
+    return out
+
+
 def check_middleware_self_writes(rep):
     repo = rep.repo
     # ---- R12.d -----------------------------------------------------------
+    table = _self_writes_table(repo)
     for fi2 in sorted(middleware_functions(repo), key=lambda f: f.key):
         effs = [e for e in effects.effects_in(fi2.node) if e.root == 'self']
-        if fi2.key in SELF_WRITES_TABLE:
-            rep.ok('R12.d', fkey(fi2), 'table entry (%d self-writes): %s' % (len(effs), SELF_WRITES_TABLE[fi2.key]), fi2.mod, fi2.node)
+        if fi2 in table:
+            rep.ok('R12.d', fkey(fi2), 'table entry (%d self-writes): %s' % (len(effs), table[fi2]), fi2.mod, fi2.node)
             continue
         rep.check('R12.d', fkey(fi2), not effs, 'no per-request write to the shared middleware object' if not effs else
                   'middleware function writes its shared instance per request: %s' % [short(e.node) for e in effs], fi2.mod,
